@@ -20,6 +20,8 @@ CONSTANTS
   CutAtGE = TRUE
   SendsGraft = TRUE
   BubbleToD = TRUE
+  FreshBackoff = TRUE
+  DownCleansFanout = TRUE
   JoinFilterDirect = FALSE
   GraftNeedsStream = FALSE
   AllowDirectInFanout = TRUE
